@@ -9,6 +9,7 @@ import (
 	"cosmossdk.io/collections"
 
 	sdk "github.com/cosmos/cosmos-sdk/types"
+	banktypes "github.com/cosmos/cosmos-sdk/x/bank/types"
 )
 
 // settlementPhase ends a history for the dispute properties: time is advanced until every dispute has run its
@@ -24,6 +25,18 @@ func settlementPhase(c *Chain, g *Gen, dm *DisputeMonitor) {
 		if !quiet(20*time.Minute, nil) {
 			return
 		}
+	}
+	// the accounts that voted with their last unit cannot pay the fee of a claim: give them the means (a claim that
+	// never reaches a block because its signer cannot pay for it is not the chain withholding a reward)
+	var fund [][]byte
+	for i, pa := range c.W.Poor {
+		from := c.W.Users[i%len(c.W.Users)]
+		if tx := g.tb.Tx(from, &banktypes.MsgSend{FromAddress: from.Bech(), ToAddress: pa.Bech(), Amount: sdk.NewCoins(sdk.NewInt64Coin(Denom, 100*DefaultFee))}); tx != nil {
+			fund = append(fund, tx)
+		}
+	}
+	if !quiet(6*time.Second, fund) {
+		return
 	}
 	for pass := 0; pass < 2; pass++ {
 		ctx := c.CommittedCtx()
